@@ -39,11 +39,12 @@ const (
 	aprSite      = "ApproveOrDenyWrite.looked-up"
 	aprTimeoutTx = "write not approved in time by application"
 
-	aprKeyTally   = "C12/tally-reset-approved-writes-time-out"
-	aprKeyRaceT   = "C12/verdict-races-timeout-double-outcome"
-	aprKeyRaceV   = "C12/verdict-races-verdict-double-outcome"
-	aprKeyStale   = "C12/verdict-racing-disconnect-leaves-approval-for-reused-counter"
-	aprDenyNumber = 7
+	aprKeyTally      = "C12/tally-reset-approved-writes-time-out"
+	aprKeyRaceT      = "C12/verdict-races-timeout-double-outcome"
+	aprKeyRaceV      = "C12/verdict-races-verdict-double-outcome"
+	aprKeyStale      = "C12/verdict-racing-disconnect-leaves-approval-for-reused-counter"
+	aprKeyOldVerdict = "C12/verdict-of-earlier-connection-taken-for-reused-counter"
+	aprDenyNumber    = 7
 )
 
 var aprWorldSeq int64
@@ -102,27 +103,28 @@ type aprVerdict struct {
 }
 
 type aprWrite struct {
-	p         int
-	c         uint64
-	epoch     int                                 // which connection of the peer carried it (counters restart with every connection)
-	shape     string                              // full | pid | psel | pall | dsel | dele
-	data      *model.LoadControlLimitListDataType // the payload object the callbacks (and the data change event) see
-	digBefore string                              // digest of the feature's data before the write was injected
-	digAt     map[int]string                      // ... inside callback i, when the write was presented
-	gone      bool                                // the connection that carried it has been removed
-	dropped   bool                                // ... while the write had no outcome
-	afterDrop []string                            // what was observed for it after that
-	ack       bool
-	t0        time.Time
-	msgs      map[int]*api.Message // callback index -> the message it was handed
-	presented map[int]int
-	outcomes  []aprOutcome
-	reported  int
-	successes int // result datagrams with error number 0
-	verdicts  []aprVerdict
-	timeoutAt time.Duration // when the timeout's result was seen (0 = not seen)
-	expired   bool          // the model has been told about the timeout
-	early     bool
+	p          int
+	c          uint64
+	epoch      int                                 // which connection of the peer carried it (counters restart with every connection)
+	shape      string                              // full | pid | psel | pall | dsel | dele
+	data       *model.LoadControlLimitListDataType // the payload object the callbacks (and the data change event) see
+	digBefore  string                              // digest of the feature's data before the write was injected
+	digAt      map[int]string                      // ... inside callback i, when the write was presented
+	oldVerdict bool                                // a verdict for the message of an earlier connection with this counter was delivered while this write (or its successor) was there
+	gone       bool                                // the connection that carried it has been removed
+	dropped    bool                                // ... while the write had no outcome
+	afterDrop  []string                            // what was observed for it after that
+	ack        bool
+	t0         time.Time
+	msgs       map[int]*api.Message // callback index -> the message it was handed
+	presented  map[int]int
+	outcomes   []aprOutcome
+	reported   int
+	successes  int // result datagrams with error number 0
+	verdicts   []aprVerdict
+	timeoutAt  time.Duration // when the timeout's result was seen (0 = not seen)
+	expired    bool          // the model has been told about the timeout
+	early      bool
 }
 
 func (w *aprWrite) resolved() bool { return len(w.outcomes) > 0 }
@@ -167,9 +169,8 @@ func (w *aprWorld) HandleEvent(p api.EventPayload) {
 			if wr := w.byData[d]; wr != nil && wr.p == i {
 				if wr.dropped {
 					wr.afterDrop = append(wr.afterDrop, "applied")
-				} else {
-					wr.outcomes = append(wr.outcomes, aprOutcome{"applied", w.step, time.Since(wr.t0)})
 				}
+				wr.outcomes = append(wr.outcomes, aprOutcome{"applied", w.step, time.Since(wr.t0)})
 			} else {
 				w.strange = append(w.strange, fmt.Sprintf("data change event on feature %d for a write no callback was shown", i))
 			}
@@ -346,8 +347,6 @@ func (w *aprWorld) scan() {
 			}
 			if wr.dropped {
 				wr.afterDrop = append(wr.afterDrop, "result")
-				w.mu.Unlock()
-				continue
 			}
 			at := m.t.Sub(wr.t0)
 			switch {
@@ -445,7 +444,7 @@ func (x *aprRun) observe(about *aprWrite, extra ...string) string {
 			if o.kind == "terr" {
 				wr.expired = true
 			}
-			t = append(t, fmt.Sprintf("%d:%s", wr.c, o.kind))
+			t = append(t, fmt.Sprintf("%d/%d:%s", wr.epoch, wr.c, o.kind))
 			wr.reported++
 		}
 	}
@@ -478,6 +477,7 @@ func (x *aprRun) compare(op string, kind string, impl string, lines ...string) b
 // expire waits until the timeout of wr has produced its result (or wr got another outcome) and reports it.
 func (x *aprRun) expire(wr *aprWrite, inserted bool) bool {
 	op := fmt.Sprintf("expire %d %d", wr.p, wr.c)
+	mline := fmt.Sprintf("expire %d %d %d", wr.p, wr.epoch, wr.c)
 	x.res.executed = append(x.res.executed, op)
 	x.w.step++
 	dead := wr.t0.Add(aprTimeout + time.Duration(atomic.LoadInt64(&aprDeadlineNow)))
@@ -504,7 +504,7 @@ func (x *aprRun) expire(wr *aprWrite, inserted bool) bool {
 	if inserted {
 		kind = "expire:inserted"
 	}
-	return x.compare(op, kind, x.observe(wr), op)
+	return x.compare(op, kind, x.observe(wr), mline)
 }
 
 // sync makes the model catch up with a timeout the harness has already seen for wr.
@@ -526,7 +526,7 @@ func (x *aprRun) timely(wr *aprWrite) (timely bool, ok bool) {
 		return false, false
 	}
 	x.w.mu.Lock()
-	res := wr.resolved()
+	res := wr.resolved() || wr.gone
 	x.w.mu.Unlock()
 	if res {
 		return false, true
@@ -737,14 +737,42 @@ func (x *aprRun) exec(op string) bool {
 		}
 		x.res.nWrites++
 		return x.compare(op, "write", x.observe(wr, fmt.Sprintf("pres=%d", pres)), fmt.Sprintf("arrive %d %d", p, c))
-	case "verdict", "look":
+	case "verdict", "look", "oldverdict", "oldlook":
 		// verdict <p> <c> <cb> <a>   |   look <id> <p> <c> <cb> <a>
+		// oldverdict / oldlook: the same for the write that carried counter c on the peer's EARLIER connection (the
+		// application answers a message of a connection that is gone; the counter may be in use again)
 		o := 0
-		if f[0] == "look" {
+		if strings.HasSuffix(f[0], "look") {
 			o = 1
 		}
+		old := strings.HasPrefix(f[0], "old")
 		p, c, cb, approve := n(1+o)%w.nPeers, n(2+o), n(3+o)%w.nCb, n(4+o) == 1
 		wr := find(p, c)
+		if old {
+			cur := wr
+			wr = nil
+			w.mu.Lock()
+			for _, o := range w.order {
+				if o.p == p && o.c == uint64(c) && o.gone {
+					wr = o
+				}
+			}
+			w.mu.Unlock()
+			if wr == nil {
+				return true
+			}
+			if cur != nil {
+				// what the old verdict does to the write that now carries the counter depends on where that write's
+				// timer stands: decided by the clock as for any verdict
+				if _, ok := x.timely(cur); !ok {
+					return false
+				}
+				w.mu.Lock()
+				cur.oldVerdict, wr.oldVerdict = true, true
+				w.mu.Unlock()
+			}
+			f[0] = strings.TrimPrefix(f[0], "old")
+		}
 		if wr == nil {
 			return true
 		}
@@ -773,14 +801,18 @@ func (x *aprRun) exec(op string) bool {
 		if f[0] == "verdict" {
 			x.opN++
 			id := 1000 + x.opN
-			x.res.executed = append(x.res.executed, fmt.Sprintf("verdict %d %d %d %d", p, c, cb, h.B2i(approve)))
+			x.res.executed = append(x.res.executed, fmt.Sprintf("%sverdict %d %d %d %d", map[bool]string{true: "old"}[old], p, c, cb, h.B2i(approve)))
 			w.f[p].ApproveOrDenyWrite(m, aprErr(approve))
 			if timely && time.Since(wr.t0) >= aprTimeout {
 				x.res.abandoned = "a verdict started in time returned after the timeout instant"
 				return false
 			}
 			w.mu.Lock()
-			wr.verdicts = append(wr.verdicts, aprVerdict{cb: cb, approve: approve, effective: timely, step: w.step})
+			v := aprVerdict{cb: cb, approve: approve, effective: timely, step: w.step}
+			if wr.gone {
+				v.effective, v.raceWith = false, "drop"
+			}
+			wr.verdicts = append(wr.verdicts, v)
 			w.mu.Unlock()
 			x.checkData(p, before, wr)
 			kind := "verdict:late"
@@ -790,13 +822,13 @@ func (x *aprRun) exec(op string) bool {
 					x.res.evals = append(x.res.evals, "intime-after-the-timeout-of-another-write")
 				}
 			}
-			return x.compare(op, kind, x.observe(wr), fmt.Sprintf("lookup %d %d %d", id, p, c), fmt.Sprintf("commit %d %d %d", id, p, h.B2i(approve)))
+			return x.compare(op, kind, x.observe(wr), fmt.Sprintf("lookup %d %d %d %d", id, p, wr.epoch, c), fmt.Sprintf("commit %d %d %d", id, p, h.B2i(approve)))
 		}
 		id := n(1)
 		if x.looks[id] != nil {
 			return true
 		}
-		x.res.executed = append(x.res.executed, fmt.Sprintf("look %d %d %d %d %d", id, p, c, cb, h.B2i(approve)))
+		x.res.executed = append(x.res.executed, fmt.Sprintf("%slook %d %d %d %d %d", map[bool]string{true: "old"}[old], id, p, c, cb, h.B2i(approve)))
 		t := h.Go(func() { w.f[p].ApproveOrDenyWrite(m, aprErr(approve)) }, aprSite)
 		site, done, okw := t.Wait(3 * time.Second)
 		if !okw || done || site != aprSite {
@@ -813,7 +845,7 @@ func (x *aprRun) exec(op string) bool {
 			return false
 		}
 		x.looks[id] = &aprLook{task: t, wr: wr, cb: cb, approve: approve, timely: timely}
-		return x.compare(op, "look", x.observe(wr), fmt.Sprintf("lookup %d %d %d", id, p, c))
+		return x.compare(op, "look", x.observe(wr), fmt.Sprintf("lookup %d %d %d %d", id, p, wr.epoch, c))
 	case "commit":
 		id := n(1)
 		lk := x.looks[id]
@@ -840,6 +872,16 @@ func (x *aprRun) exec(op string) bool {
 			raceWith = "drop"
 		}
 		w.mu.Unlock()
+		if wr.gone {
+			if cur := find(wr.p, int(wr.c)); cur != nil && cur != wr {
+				if _, ok := x.timely(cur); !ok {
+					return false
+				}
+				w.mu.Lock()
+				cur.oldVerdict, wr.oldVerdict = true, true
+				w.mu.Unlock()
+			}
+		}
 		intime := false
 		if !resolved {
 			if time.Since(wr.t0) < aprTimeout-aprMargin {
@@ -924,7 +966,7 @@ func (x *aprRun) exec(op string) bool {
 				time.Sleep(rem)
 			}
 			w.step++
-			if !x.compare("settle", "settle", x.observe(wr), fmt.Sprintf("expire %d %d", wr.p, wr.c)) {
+			if !x.compare("settle", "settle", x.observe(wr), fmt.Sprintf("expire %d %d %d", wr.p, wr.epoch, wr.c)) {
 				return false
 			}
 		}
@@ -968,11 +1010,14 @@ func (x *aprRun) spec() {
 	w.scan()
 	w.mu.Lock()
 	defer w.mu.Unlock()
-	res := x.res
+	res0 := x.res
 	for _, s := range w.strange {
-		res.fail("C12/unattributable-observation", s)
+		res0.fail("C12/unattributable-observation", s)
 	}
 	for _, wr := range w.order {
+		// whatever goes wrong for a write while a verdict for the message of an EARLIER connection with the same
+		// counter is delivered is the one defect: the verdict was taken for the wrong write instance
+		res := &aprKeyed{res0, wr.oldVerdict}
 		// presented once to every callback
 		for i := 0; i < w.nCb; i++ {
 			switch k := wr.presented[i]; {
@@ -1114,6 +1159,20 @@ func (x *aprRun) spec() {
 			res.timedOut++
 		}
 	}
+}
+
+// aprKeyed: failures of one write instance, re-keyed when an old-connection verdict was involved
+type aprKeyed struct {
+	*aprResult
+	old bool
+}
+
+func (k *aprKeyed) fail(key, detail string) {
+	if k.old && key != "C12/data-changed-before-approval" && !strings.HasPrefix(key, "C12/not-presented") && !strings.HasPrefix(key, "C12/presented") {
+		k.aprResult.fail(aprKeyOldVerdict, "["+strings.TrimPrefix(key, "C12/")+"] "+detail+"; a verdict for the message that carried this counter on the peer's EARLIER connection was delivered while the counter was in use again")
+		return
+	}
+	k.aprResult.fail(key, detail)
 }
 
 func aprVerdictText(vs []aprVerdict) string {
@@ -1370,15 +1429,16 @@ func genAprReconnect(rng *rand.Rand) []string {
 			late = append(late, cm) // committed after the connection is gone
 		}
 	}
-	// (a verdict of the old connection is committed before the reused counter arrives: what it does to a NEW write
-	// of the same counter depends on timer identity, which the model does not carry - not explored)
 	ops = append(ops, fmt.Sprintf("drop %d", p))
 	if rng.Intn(2) == 0 {
 		ops = append(ops, late...)
 		late = nil
 	}
 	ops = append(ops, fmt.Sprintf("reconnect %d", p))
-	ops = append(ops, late...)
+	lateAfterReuse := rng.Intn(2) == 0
+	if !lateAfterReuse {
+		ops = append(ops, late...)
+	}
 	for i := 0; i < nW; i++ {
 		c := 11 + i
 		ops = append(ops, fmt.Sprintf("write %d %d %d %s", p, c, rng.Intn(2), shape()))
@@ -1396,6 +1456,18 @@ func genAprReconnect(rng *rand.Rand) []string {
 			}
 		default: // a single approval
 			ops = append(ops, fmt.Sprintf("verdict %d %d %d 1", p, c, order[0]))
+		}
+		if i == 0 && lateAfterReuse {
+			ops = append(ops, late...) // a verdict of the old connection commits after its counter is in use again
+		}
+		if rng.Intn(3) == 0 {
+			// the application answers the OLD message of this counter now
+			v := fmt.Sprintf("oldverdict %d %d %d %d", p, c, rng.Intn(nCb), h.B2i(rng.Intn(4) > 0))
+			at := len(ops) - rng.Intn(3)
+			if at < 0 || at > len(ops) {
+				at = len(ops)
+			}
+			ops = append(ops[:at], append([]string{v}, ops[at:]...)...)
 		}
 	}
 	if nPeers == 2 {
@@ -1524,9 +1596,17 @@ var (
 // a verdict past its lookup when the connection is removed, committed afterwards; the counter is reused
 var aprWitnessStale = []string{"cfg 2 1", "write 0 11 1 pid", "look 1 0 11 0 1", "drop 0", "commit 1", "reconnect 0", "write 0 11 1 pid", "verdict 0 11 1 1", "expireall"}
 
+// the application answers a message of the peer's earlier connection after the counter is in use again
+var aprWitnessOld = []string{"cfg 1 1", "write 0 11 1 pid", "drop 0", "reconnect 0", "write 0 11 1 psel", "oldverdict 0 11 0 1", "expireall"}
+
 func aprCorpus() [][]string {
 	return [][]string{
-		aprWitnessStale,
+		aprWitnessStale, aprWitnessOld,
+		// a verdict past its lookup at the disconnect commits after the counter has been reused
+		{"cfg 2 1", "write 0 11 1 pid", "look 1 0 11 0 1", "drop 0", "reconnect 0", "write 0 11 1 pid", "commit 1", "verdict 0 11 0 1", "verdict 0 11 1 1", "expireall"},
+		{"cfg 2 1", "write 0 11 1 pid", "look 1 0 11 0 0", "drop 0", "reconnect 0", "write 0 11 0 full", "verdict 0 11 1 1", "commit 1", "verdict 0 11 0 1", "expireall"},
+		{"cfg 2 1", "write 0 11 1 full", "verdict 0 11 0 1", "expireall", "drop 0", "reconnect 0", "write 0 11 1 dsel", "oldverdict 0 11 1 1", "verdict 0 11 1 0", "expireall"},
+		{"cfg 3 2", "write 0 11 1 pall", "write 1 11 0 pid", "drop 0", "reconnect 0", "write 0 11 1 pid", "oldlook 1 0 11 2 1", "verdict 0 11 0 1", "expire 0 11", "commit 1", "verdict 1 11 0 1", "expireall"},
 		aprWitnessTally, aprWitnessRaceT, aprWitnessRaceV,
 		{"cfg 1 1", "write 0 1 1", "verdict 0 1 0 1"},
 		{"cfg 1 1", "write 0 1 0", "verdict 0 1 0 1"},
@@ -1757,12 +1837,17 @@ func aprProbe(r *h.Report) []string {
 		}
 		return strings.Join(s, " | ")
 	}
+	stale, rs := probe(aprWitnessStale, aprKeyStale)
+	oldv, ro := probe(aprWitnessOld, aprKeyOldVerdict)
 	r.SetFlag("tallyReset", tally, aprWitnessTally, detail(rt))
 	r.SetFlag("ignoreStop", raceT || raceV, aprWitnessRaceT, detail(rr)+" || "+detail(rv))
-	for _, res := range []*aprResult{rt, rr, rv} {
+	r.SetFlag("countsWithoutRecheck", stale, aprWitnessStale, detail(rs))
+	r.SetFlag("verdictNotBoundToMessage", oldv, aprWitnessOld, detail(ro))
+	for _, res := range []*aprResult{rt, rr, rv, rs, ro} {
 		for _, s := range res.spec {
 			r.SpecFail(s.Key, s.Ops, s.Detail)
 		}
 	}
-	return []string{"tally=" + strconv.Itoa(h.B2i(tally)), "stop=" + strconv.Itoa(h.B2i(raceT || raceV))}
+	return []string{"tally=" + strconv.Itoa(h.B2i(tally)), "stop=" + strconv.Itoa(h.B2i(raceT || raceV)),
+		"recheck=" + strconv.Itoa(h.B2i(!stale)), "msgid=" + strconv.Itoa(h.B2i(!oldv))}
 }
